@@ -229,11 +229,48 @@ Proof.
   - now apply IH.
 Qed.
 
+Lemma actions_decode_total : forall n col rows,
+  Forall (fun r : list cell => col < List.length r) rows -> exists b, actions_decode n col rows = Ok b.
+Proof.
+  intros n col rows. induction rows as [|r rows IH]; intro H; simpl; [eauto|].
+  inversion H as [|? ? Hr Hrs]; subst.
+  destruct (nth_error r col) eqn:E; [|apply nth_error_None in E; lia].
+  destruct (decodes n (cell_string_of c)); [now apply IH|eauto].
+Qed.
+
+(* accepted means: no row has an Actions cell that fails to decode *)
+Definition has_undecodable (n : nat) (t : table) : bool :=
+  existsb (fun r => match nth_error r (col_size t - 2) with
+                    | Some c => negb (decodes n (cell_string_of c))
+                    | None => false
+                    end) (t_rows t).
+
+Lemma actions_decode_true : forall n col rows, actions_decode n col rows = Ok true ->
+  existsb (fun r => match nth_error r col with Some c => negb (decodes n (cell_string_of c)) | None => false end) rows = false.
+Proof.
+  intros n col rows. induction rows as [|r rows IH]; intro H; simpl in *; [reflexivity|].
+  destruct (nth_error r col); [|discriminate].
+  destruct (decodes n (cell_string_of c)); [simpl; now apply IH|discriminate].
+Qed.
+
 Lemma verify_summary_total : forall (d : desc) t, table_wf t = true -> exists b, verify_summary d t = Ok b.
 Proof.
   intros d t Hwf. unfold verify_summary.
   destruct (Nat.ltb (col_size t) (List.length (d_asis d) + 3)) eqn:L; [eauto|]. apply Nat.ltb_ge in L.
-  destruct (table_wf_rows t Hwf) as [_ Hrows]. now apply verify_rows_total.
+  destruct (table_wf_rows t Hwf) as [_ Hrows].
+  destruct (actions_decode_total (List.length (d_actions d)) (col_size t - 2) (t_rows t)) as [b Hb].
+  { eapply Forall_impl; [|exact Hrows]. cbv beta. intros r Hr. rewrite Hr. lia. }
+  rewrite Hb. simpl. destruct b; simpl; [now apply verify_rows_total|eauto].
+Qed.
+
+Lemma verify_summary_true : forall (d : desc) t, verify_summary d t = Ok true ->
+  has_undecodable (List.length (d_actions d)) t = false.
+Proof.
+  intros d t H. unfold verify_summary in H.
+  destruct (Nat.ltb (col_size t) (List.length (d_asis d) + 3)); [discriminate|].
+  unfold res_bind in H.
+  destruct (actions_decode (List.length (d_actions d)) (col_size t - 2) (t_rows t)) as [b|] eqn:E; [|discriminate].
+  destruct b; [|discriminate]. unfold has_undecodable. now apply actions_decode_true.
 Qed.
 
 Lemma label_row_total : forall label rows,
@@ -257,32 +294,14 @@ Proof. intros. unfold words_to_bits. now rewrite map_length, seq_length. Qed.
 Lemma words_of_bits_length : forall fuel bs, List.length (words_of_bits fuel bs) = fuel.
 Proof. induction fuel; intros; simpl; auto. Qed.
 
-Lemma parse_entries_flag : forall entries ws ws',
-  List.length ws = List.length entries -> List.length ws' = List.length entries ->
-  fst (parse_entries entries ws) = fst (parse_entries entries ws').
-Proof.
-  induction entries as [|e es IH]; intros ws ws' H H'; simpl.
-  - destruct ws, ws'; reflexivity.
-  - destruct ws as [|w ws]; [simpl in H; discriminate|]. destruct ws' as [|w' ws']; [simpl in H'; discriminate|].
-    destruct (parse_hex64 e); [|reflexivity].
-    specialize (IH ws ws'). simpl in H, H'.
-    destruct (parse_entries es ws) as [ok r] eqn:E1. destruct (parse_entries es ws') as [ok' r'] eqn:E2.
-    simpl in *. apply IH; lia.
-Qed.
-
 (* the verdict of Decode does not depend on the archive it is decoded into (validatePatchAttributes decodes into a
    scratch archive, the application loop into the clone's) *)
 Lemma decode_flag : forall n cur cur' e,
   List.length cur = n -> List.length cur' = n -> fst (decode n cur e) = fst (decode n cur' e).
 Proof.
-  intros n cur cur' e H H'. unfold decode.
-  destruct (negb (Nat.eqb (List.length (split_colon e)) (archive_len n))) eqn:E; [reflexivity|].
-  apply negb_false_iff in E. apply Nat.eqb_eq in E.
-  pose proof (parse_entries_flag (split_colon e) (bits_to_words cur) (bits_to_words cur')) as P.
-  unfold bits_to_words in *. rewrite !words_of_bits_length, H, H' in P. specialize (P (eq_sym E) (eq_sym E)).
-  rewrite H, H'.
-  destruct (parse_entries (split_colon e) (words_of_bits (archive_len n) cur)).
-  destruct (parse_entries (split_colon e) (words_of_bits (archive_len n) cur')). exact P.
+  intros n cur cur' e _ _. unfold decode.
+  destruct (negb (Nat.eqb (List.length (split_colon e)) (archive_len n))); [reflexivity|].
+  destruct (parse_all (split_colon e)); reflexivity.
 Qed.
 
 Lemma decode_length : forall n cur e ok bits, List.length cur = n -> decode n cur e = (ok, bits) -> List.length bits = n.
@@ -290,7 +309,15 @@ Proof.
   intros n cur e ok bits H D. unfold decode in D.
   destruct (negb (Nat.eqb (List.length (split_colon e)) (archive_len n))).
   - inversion D as [[Hok Hb]]. rewrite <- Hb. exact H.
-  - destruct (parse_entries (split_colon e) (bits_to_words cur)). inversion D as [[Hok Hb]]. apply words_to_bits_length.
+  - destruct (parse_all (split_colon e)); inversion D as [[Hok Hb]]; [apply words_to_bits_length|rewrite <- Hb; exact H].
+Qed.
+
+(* a rejected encoding leaves the archive as it was *)
+Lemma decode_rejected_keeps : forall n cur e bits, decode n cur e = (false, bits) -> bits = cur.
+Proof.
+  intros n cur e bits D. unfold decode in D.
+  destruct (negb (Nat.eqb (List.length (split_colon e)) (archive_len n))); [now inversion D|].
+  destruct (parse_all (split_colon e)); inversion D. reflexivity.
 Qed.
 
 Lemma repeat_length' : forall (A : Type) (x : A) n, List.length (repeat x n) = n.
@@ -660,6 +687,26 @@ Lemma json_bodies_are_marshalled : forall (s : state) (r : request) resp s',
 Proof.
   intros s r resp s' H. destruct (handle_shape s r resp s' H) as [[E|[E|[E|E]]]|[_ E]]; try (rewrite E; exact I).
   destruct (rs_ctype resp), (rs_body resp); simpl in *; try contradiction; try exact I; eauto.
+Qed.
+
+(* a summary with an Actions cell that does not decode for the loaded scenario is refused: never 200 (hence, by
+   [error_is_json_document], an error document), whatever the state; in a reachable state nothing changes *)
+Lemma undecodable_encoding_refused : forall (s : state) (r : request) t resp s',
+  rq_route r = RSolutions -> rq_meth r = MPost -> rq_csv r = CsvOk t ->
+  (forall m, st_model s = Some m -> has_undecodable (List.length (d_actions (m_desc m))) t = true) ->
+  handle s r = Ok (resp, s') -> rs_status resp <> 200.
+Proof.
+  intros s r t resp s' Hr Hm Hc Hu H. unfold handle in H. rewrite Hr, Hm in H. unfold post_solutions in H. rewrite Hc in H.
+  unfold fail, respond, res_bind, need_name in H.
+  destruct (st_text s); [|inversion H; simpl; discriminate].
+  destruct (rq_ctype r); try (inversion H; simpl; discriminate).
+  destruct (summary_table_ok t) as [ok|]; [|discriminate].
+  destruct ok; simpl in H; [|inversion H; simpl; discriminate].
+  destruct (st_model s) as [m|] eqn:Em; [|discriminate].
+  destruct (verify_summary (m_desc m) t) as [same|] eqn:Ev; [|discriminate].
+  destruct same; simpl in H.
+  - apply verify_summary_true in Ev. rewrite (Hu m eq_refl) in Ev. discriminate.
+  - inversion H; simpl; discriminate.
 Qed.
 
 (* without the hypothesis that the library calls return, the statement is false of the model *)
